@@ -137,6 +137,30 @@ def rec_small(des, wt, sc, cons):
     return rec
 
 
+def gen_heavy(rng):
+    """Small instances with one or two very heavy (wall-like, 1e10) variables and a dense constraint graph: blocks that
+    contain a heavy variable get merged and must be split again."""
+    n = rng.randint(3, 9)
+    wts = [Fraction(1)] * n
+    for _ in range(rng.randint(1, 2)):
+        wts[rng.randrange(n)] = Fraction(10 ** 10)
+    if rng.random() < 0.3:
+        wts[rng.randrange(n)] = Fraction(rng.choice([3, 100]))
+    scs = [Fraction(1)] * n
+    des = [Fraction(rng.randint(0, 9)) for _ in range(n)]
+    order = list(range(n))
+    rng.shuffle(order)
+    cons = []
+    dens = rng.choice([0.3, 0.5, 0.7])
+    for i in range(n):
+        for j in range(i + 1, n):
+            if rng.random() < dens:
+                cons.append((order[i], order[j], Fraction(rng.choice([0, 1, 2, 3, 3]))))
+    if not cons:
+        cons.append((order[0], order[1], Fraction(2)))
+    return des, wts, scs, cons
+
+
 def gen_large(rng):
     n = rng.randint(8, 60)
     wchoices = [Fraction(1, 100), Fraction(1), Fraction(3), Fraction(100), Fraction(10 ** 10)]
@@ -154,6 +178,77 @@ def gen_large(rng):
             a, b = b, a
         cons.append((a, b, Fraction(rng.choice([0, 1, 1, 2, 3, 5]), rng.choice([1, 1, 2]))))
     return des, wts, scs, cons
+
+
+def better_feasible_point(des, wt, sc, cons, pos, act):
+    """Certificate search (DESIGN 6, "certificates"): if an active constraint of the solver's final forest has a
+    clearly negative multiplier, releasing it and letting the two sides relax gives a descent direction; walk along it
+    as far as every constraint stays satisfied and return a point on the 1e-6 grid that is EXACTLY feasible and
+    cheaper - or None.  TLC re-checks feasibility and cost exactly; a wrong proposal can only be rejected."""
+    n = len(des)
+    x = [Fraction(p) for p in pos]
+    active = [i for i, a in enumerate(act) if a]
+    if not active:
+        return None
+    adj = {v: [] for v in range(n)}
+    for i in active:
+        a, b, g = cons[i]
+        adj[a].append((b, i))
+        adj[b].append((a, i))
+
+    def side(start, banned):
+        seen = {start}
+        st = [start]
+        while st:
+            u = st.pop()
+            for v, ci in adj[u]:
+                if ci != banned and v not in seen:
+                    seen.add(v)
+                    st.append(v)
+        return seen
+    worst = None
+    for i in active:
+        a, b, g = cons[i]
+        R = side(b, i)
+        if a in R:
+            return None  # not a forest: no certificate attempted
+        lam = sum(2 * wt[v] * (x[v] - des[v]) / sc[v] for v in R)
+        if worst is None or lam < worst[0]:
+            worst = (lam, i, R)
+    lam, ci, R = worst
+    if lam >= 0:
+        return None
+    a, b, g = cons[ci]
+    Lset = side(a, ci)
+    step = [Fraction(0)] * n
+    for S in (Lset, R):
+        num = sum(wt[v] / sc[v] * (x[v] - des[v]) for v in S)
+        den = sum(wt[v] / (sc[v] * sc[v]) for v in S)
+        delta = -num / den
+        for v in S:
+            step[v] = delta / sc[v]
+
+    def slack(pt, c):
+        l, r, gg = c
+        return sc[r] * pt[r] - sc[l] * pt[l] - gg
+
+    def cost(pt):
+        return sum(wt[v] * (pt[v] - des[v]) ** 2 for v in range(n))
+    theta = Fraction(1)
+    for c in cons:
+        s0 = max(Fraction(0), slack(x, c))
+        d = slack([x[v] + step[v] for v in range(n)], c) - slack(x, c)
+        if d < 0:
+            theta = min(theta, s0 / (-d))
+    base = cost(x)
+    for shrink in (Fraction(999, 1000), Fraction(1, 2), Fraction(1, 10)):
+        th = theta * shrink
+        if th <= 0:
+            return None
+        pt = [Fraction(int(round((x[v] + th * step[v]) * 10 ** 6)), 10 ** 6) for v in range(n)]
+        if all(slack(pt, c) >= 0 for c in cons) and cost(pt) < base - max(Fraction(1, 1000), base / 10 ** 6) * 4:
+            return [int(p * 10 ** 6) for p in pt]
+    return None
 
 
 def rec_large(des, wt, sc, cons):
@@ -178,7 +273,13 @@ def rec_large(des, wt, sc, cons):
         "acyclic": 1 if is_acyclic(n, cons) else 0,
         "rounds": calls,
         "err": err or "",
+        "haswit": 0, "wit6": [],
     }
+    if term and rec["acyclic"] and not any(uns):
+        w = better_feasible_point(des, wt, sc, cons, pos, act)
+        if w is not None and all(abs(v) < 2 * 10 ** 9 for v in w):
+            rec["haswit"] = 1
+            rec["wit6"] = w
     return rec
 
 
@@ -193,8 +294,8 @@ def main():
             cons = [tuple(c) for c in inst["cons"]]
             recs.append(rec_small(inst["des"], inst["wt"], inst["sc"], cons))
     while len(recs) < job["count"]:
-        if mode == "large":
-            des, wt, sc, cons = gen_large(rng)
+        if mode in ("large", "heavy"):
+            des, wt, sc, cons = gen_large(rng) if mode == "large" else gen_heavy(rng)
             rec = rec_large(des, wt, sc, cons)
             if any(p is None for p in rec["pos5"]):
                 discarded += 1
